@@ -561,14 +561,14 @@ Proof.
   assert (W1 : WF s1) by (subst s1; apply WF_slq; auto; intros y Hy; left; now apply pop_front_sub in Hy).
   set (S' := updV (rq_append (updT (dequeue s1 x READY) x (fun y => t_wk y WTimeout)) v x) v (fun y => v_ipc y c)).
   assert (Fy : forall y, y <> x -> th S' y = th s y).
-  { intros y Hy. subst S'. proj. rewrite th_updT_other by auto. rewrite dequeue_th_other by auto. reflexivity. }
+  { intros y Hy. subst S'. proj; proj. rewrite th_updT_other by auto. rewrite dequeue_th_other by auto. reflexivity. }
   destruct (dequeue_x s1 x READY) as (D1 & _ & _ & D4 & _ & _ & D7 & _ & _ & D10 & _).
   assert (Fx : tpc (th S' x) = tpc (th s x) /\ err (th S' x) = err (th s x) /\ ts (th S' x) = ts (th s x) /\
                wk (th S' x) = WTimeout /\ st (th S' x) = READY).
-  { subst S'. proj. rewrite th_updT_same. simpl. rewrite D1, D4, D7, D10. repeat split; auto. }
+  { subst S'. proj; proj. rewrite th_updT_same. simpl. rewrite D1, D4, D7, D10. repeat split; auto. }
   destruct Fx as (X1 & X2 & X3 & X4 & X5).
   assert (Fq : forall q y, In y (wqs S' q) -> In y (wqs s q) /\ y <> x).
-  { intros q y H. subst S'. proj. apply (dequeue_wqs s1 x READY W1) in H. exact H. }
+  { intros q y H. subst S'. proj; proj. apply (dequeue_wqs s1 x READY W1) in H. exact H. }
   constructor.
   - intros y c0 H. apply Fq in H. destruct H as [H Hn]. rewrite (Fy y Hn). now apply (rs_cv s _ R).
   - intros y l H. apply Fq in H. destruct H as [H Hn]. rewrite (Fy y Hn). now apply (rs_mx s _ R).
